@@ -80,12 +80,21 @@ def build_file(blocks, style="hash", eol="\n", prefix="b"):
             tag = "# <block %s>" % body
             end = "# </block>"
             first = ""
+        elif style == "cm":
+            # the start tag's comment goes on for two more lines: content line 0 is the rest of the comment's *last* line
+            tag = "/* <block %s>" % body + eol + "   the comment continues," + eol + "   one line per sentence. */"
+            end = "// </block>"
+            first = b.inline_first or ""
         else:
             tag = "/* <block %s> */" % body
             end = "// </block>"
             first = b.inline_first or ""
         b.tag_line = line
         b.first_offset = len(tag.encode("utf-8"))
+        if style == "cm":
+            b.tag_line = line + 2          # line of content line 0 (positions of keys count from there)
+            b.first_offset = len("   one line per sentence. */")
+            line += 2
         out.append(tag + first + eol)
         line += 1
         for ln in b.lines:
@@ -108,12 +117,13 @@ def run_batch(ctx, blocks, style, code, model, eol="\n", flavour="rel", check_po
 
     model(block) -> None | dict(line_idx, key, c1, c2) for range validators, or dict(data=...) for
     line-count. Returns a list of Cases (one per block; violations carry a one-block witness)."""
-    fname = "batch.py" if style == "hash" else "batch.js"
+    fname = "batch.py" if style == "hash" else "batch.js"      # styles c and cm: JavaScript
     text = build_file(blocks, style, eol, prefix)
     if bom and blocks:
         # UTF-8 byte order mark: three bytes that belong to line 1 (byte columns there move by 3) and to nothing else
         text = "\ufeff" + text
-        blocks[0].first_offset += 3
+        if style != "cm":
+            blocks[0].first_offset += 3
     root = run.make_repo({fname: text})
     env = {"BLOCKWATCH_TERMINAL_MODE": "1"}
     if extra_env:
